@@ -137,12 +137,34 @@ theorem plusOk_chAt : ∀ (l : Str), plusOk l = true → ∀ j, j + 1 < l.length
         have := ih h.2 j (by simp only [List.length_cons] at hj ⊢; omega) (by simpa [chAt] using hc)
         simpa [chAt] using this
 
+/-- `[` body `]` with no bracket inside has exactly one pair of brackets -/
+theorem oneBracketPair_of (body : Str) (hb : ∀ c ∈ body, c ≠ 91 ∧ c ≠ 93) : oneBracketPair (91 :: (body ++ [93])) = true := by
+  unfold oneBracketPair
+  have h1 : (body ++ [93]).filter (· == 91) = [] := by
+    rw [List.filter_eq_nil_iff]
+    intro c hc
+    simp only [List.mem_append, List.mem_cons, List.not_mem_nil, or_false] at hc
+    rcases hc with h | rfl
+    · have := (hb c h).1; simp [this]
+    · decide
+  have h2 : (body ++ [93]).idxOf 93 = body.length := by
+    have hn : ¬ 93 ∈ body := fun h => (hb 93 h).2 rfl
+    rw [List.idxOf_append]
+    simp [hn, List.idxOf_cons]
+  have h3 : (91 :: (body ++ [93])).idxOf 93 = body.length + 1 := by
+    rw [List.idxOf_cons, h2]
+    rfl
+  simp only [List.filter_cons, show ((91 : Nat) == 91) = true by decide, if_true, h1, List.length_cons, List.length_nil, h3,
+    List.length_append]
+  simp
+
 /-- the memory text `[<base>+0x<digits>]` and what the scanners need to know about it -/
-theorem mem_scan_facts (mem : Str) (hs : ∀ c ∈ mem, c ≠ 42) (hp : plusOk mem = true) (hne : mem ≠ []) (hlast : chAt mem (mem.length - 1) = 93) :
+theorem mem_scan_facts (mem : Str) (hs : ∀ c ∈ mem, c ≠ 42) (hp : plusOk mem = true) (hne : mem ≠ []) (hlast : chAt mem (mem.length - 1) = 93)
+    (hob : oneBracketPair mem = true) :
     getIndexReg mem = some (c_SIB, []) := by
   unfold getIndexReg
   have h1 : mem.isEmpty = false := by cases mem with | nil => exact absurd rfl hne | cons a b => rfl
-  simp only [h1, Bool.false_eq_true, if_false, hlast, bne_self_eq_false]
+  simp only [h1, Bool.false_eq_true, if_false, hlast, bne_self_eq_false, hob, Bool.not_true]
   exact getIndexRegGo_none mem mem.length c_SIB (fun j _ => chAt_ne mem j 42 (by decide) hs)
     (fun j hj hc => plusOk_chAt mem hp j hj hc) mem.length 0 false (fun h => by cases h) (by omega)
 
@@ -206,16 +228,27 @@ theorem memTok_hex (n : Nat) (name : Str) (g : Nat) (hp : (n, name, g) ∈ regs6
     intro pre
     rw [chAt_last_append pre (hexDigs k v ++ [93]) (by simp), chAt_last_append (hexDigs k v) [93] (by simp)]
     rfl
+  have hob : oneBracketPair (91 :: ((name ++ sg :: 48 :: 120 :: hexDigs k v) ++ [93])) = true := by
+    apply oneBracketPair_of
+    intro c hc
+    simp only [List.mem_append, List.mem_cons] at hc
+    rcases hc with h | rfl | rfl | rfl | h
+    · exact ⟨(hnc c h).2.2.2.1, (hnc c h).2.2.1⟩
+    · rcases hsg with rfl | rfl <;> decide
+    · decide
+    · decide
+    · exact ⟨(hnumc c h).2.2.2, (hnumc c h).2.2.1⟩
   simp only [regs64, List.mem_cons, Prod.mk.injEq, List.not_mem_nil, or_false] at hp
   rcases hp with ⟨rfl, rfl, rfl⟩ | ⟨rfl, rfl, rfl⟩ | ⟨rfl, rfl, rfl⟩ | ⟨rfl, rfl, rfl⟩ | ⟨rfl, rfl, rfl⟩ | ⟨rfl, rfl, rfl⟩ | ⟨rfl, rfl, rfl⟩ | ⟨rfl, rfl, rfl⟩ | ⟨rfl, rfl, rfl⟩ | ⟨rfl, rfl, rfl⟩ | ⟨rfl, rfl, rfl⟩ | ⟨rfl, rfl, rfl⟩ | ⟨rfl, rfl, rfl⟩ | ⟨rfl, rfl, rfl⟩ | ⟨rfl, rfl, rfl⟩ | ⟨rfl, rfl, rfl⟩
   all_goals (
     rcases hsg with rfl | rfl
     all_goals (
+      simp only [List.cons_append, List.nil_append, List.append_assoc] at hob
       have hlen : ∀ (pre : Str), (pre ++ (hexDigs k v ++ [93])).length = (hexDigs k v).length + (pre.length + 1) := by
         intro pre; simp; omega
       simp only [List.cons_append, List.nil_append, List.append_assoc] at hs ⊢
       have hpl2' : plusOk (d0 :: rest) = true := by rw [← hds]; exact hpl2
-      have hgi := mem_scan_facts _ hs (by simp [plusOk, isLower, hds, hpl2']) (by simp) (chAt_last_of_getLast _ 93 (by simp [hgl]))
+      have hgi := mem_scan_facts _ hs (by simp [plusOk, isLower, hds, hpl2']) (by simp) (chAt_last_of_getLast _ 93 (by simp [hgl])) hob
       unfold memTok
       simp only [hgi]
       have hst' := hst []
